@@ -37,6 +37,12 @@ WRITE_OPEN_SITES = {
 def check(ck):
     from .memo import check_new_memo_tables
     ck.run(check_new_memo_tables, ck, "C07.M1", ('storage_base', 'storage_filesystem'))
+    # immutability as seen through the write-through cache: a memento reads the bytes its content key names,
+    # i.e. the cache serves a call only what was put for that call (shared with C05.R4)
+    from .c05 import check_cache_reads_own_key
+    from .cache_model import CacheModel
+    ck.rule("C07.R10", "the memory cache serves a memento only the value cached under that memento's own key", 1)
+    ck.run(lambda: check_cache_reads_own_key(ck, CacheModel(ck), "C07.R10"))
     R1, R2, R3, R4, R5, R6 = ("C07.R%d" % i for i in range(1, 7))
     ck.rule(R1, "the content key is the full SHA-256 hex digest of the same bytes that are handed to the data source", 5)
     ck.rule(R2, "dedupe: when the content key exists and there is no override nothing is written and the existing "
@@ -157,6 +163,28 @@ def _check_dedupe(ck, fa, ex, outs, R2):
 
 
 
+def check_who_may_delete(ck, R4):
+    """Stored objects are shared (content addressed) and referenced by mementos: the data-source delete
+    operations are called only by the metadata source's forget operations (on the metadata prefix) and
+    by the null strategy (pointer only) — never from the write path, an error handler or a partition."""
+    sites = ck.cg.call_sites_of(lambda call, cands: A.call_attr(call) in ("delete_all_versions", "delete_nonversioned_key"))
+    for (fi, call, cands) in sites:
+        inside_fsds = fi.cls is not None and fi.cls.qual == FSDS
+        allowed = fi.qual in DELETE_CALLERS or inside_fsds
+        recv = A.dotted(A.call_recv(call)) or ""
+        if fi.qual.startswith("storage_base.StorageBackendBase") or recv == "self._data_source":
+            allowed = False
+        if fi.qual in DELETE_OPS and A.call_attr(call) not in DELETE_OPS[fi.qual]:
+            ck.ob(R4, "%s::%s::operation" % (fi.qual, A.call_attr(call)), False,
+                  "%s calls %s: it may only remove the pointer (%s); deleting all versions destroys objects that older mementos still reference"
+                  % (fi.qual.split(".")[-2], A.call_attr(call), sorted(DELETE_OPS[fi.qual])), A.loc(fi, call))
+            continue
+        ck.ob(R4, "%s::%s" % (fi.qual, A.short(call, 70)), allowed,
+              DELETE_CALLERS.get(fi.qual, "internal to the data source") if allowed else
+              "data deletion called from %s: result objects shared by other mementos can disappear" % fi.qual, A.loc(fi, call))
+    return sites
+
+
 def _rest(ck, fa, R3, R4, R5, R6):
     # ---- R3
     strat = ck.repo.cls("storage_base.Codec.Strategy")
@@ -196,21 +224,7 @@ def _rest(ck, fa, R3, R4, R5, R6):
           "the partition index is not read through its versioned key", pi.where())
 
     # ---- R4
-    sites = ck.cg.call_sites_of(lambda call, cands: A.call_attr(call) in ("delete_all_versions", "delete_nonversioned_key"))
-    for (fi, call, cands) in sites:
-        inside_fsds = fi.cls is not None and fi.cls.qual == FSDS
-        allowed = fi.qual in DELETE_CALLERS or inside_fsds
-        recv = A.dotted(A.call_recv(call)) or ""
-        if fi.qual.startswith("storage_base.StorageBackendBase") or recv == "self._data_source":
-            allowed = False
-        if fi.qual in DELETE_OPS and A.call_attr(call) not in DELETE_OPS[fi.qual]:
-            ck.ob(R4, "%s::%s::operation" % (fi.qual, A.call_attr(call)), False,
-                  "%s calls %s: it may only remove the pointer (%s); deleting all versions destroys objects that older mementos still reference"
-                  % (fi.qual.split(".")[-2], A.call_attr(call), sorted(DELETE_OPS[fi.qual])), A.loc(fi, call))
-            continue
-        ck.ob(R4, "%s::%s" % (fi.qual, A.short(call, 70)), allowed,
-              DELETE_CALLERS.get(fi.qual, "internal to the data source") if allowed else
-              "data deletion called from %s: result objects shared by other mementos can disappear" % fi.qual, A.loc(fi, call))
+    sites = check_who_may_delete(ck, R4)
     seen_callers = {fi.qual for (fi, _, _) in sites}
     for q in DELETE_CALLERS:
         if q not in seen_callers:
